@@ -112,6 +112,12 @@ func cmdCore(args []string) int {
 	}
 	p := &core.Pipeline{Prop: *prop, Seed: *seed, Tier: *tier, Driver: *driver, OutDir: *out,
 		Opts: o, NCases: *n, Workers: 12, Search: *search}
+	if *prop == "C11" {
+		p.Repeat = 64
+		if *tier == "thorough" {
+			p.Repeat = 256
+		}
+	}
 	if *corpus != "" {
 		p.Corpus = strings.Split(*corpus, ",")
 	}
